@@ -54,7 +54,58 @@ LawTemporalDesc ==     \* the value computed from the components equals the valu
 LawInvalidRejected ==
   cs.kind = "lit-temporal" /\ cs.sub = "invalid" => ~ParseTemporalLit(cs.text).ok
 
-Laws == /\ LawDecodeEncode /\ LawOrdinaryIntact /\ LawEncodeOfDecode /\ LawTokenCount
+(* ---- precision maps: bijective where the target can represent the value ---- *)
+KindOfEk(ek) == CASE ek = "Date" -> "date" [] ek = "Time" -> "time" [] OTHER -> "dt"
+PrecsOfEk(ek) == CASE ek = "Date" -> DateProtoPrecs [] ek = "Time" -> TimeProtoPrecs [] ek = "Instant" -> {"SECOND", "MILLISECOND", "MICROSECOND"} [] OTHER -> DateTimeProtoPrecs
+LawPrecisionBijective ==
+  /\ \A ek \in {"Date", "DateTime", "Time"} : \A pp \in PrecsOfEk(ek) :
+        ProtoPrecOfSys(KindOfEk(ek), SysPrecOfProto(pp)) = (IF pp = "MICROSECOND" THEN "MILLISECOND" ELSE pp)
+  /\ \A k \in {"date", "dt", "time"} : \A p \in 1..7 :
+        LET pp == ProtoPrecOfSys(k, p) IN pp # "none" => SysPrecOfProto(pp) = p
+  /\ \A k \in {"date", "dt", "time"} : {p \in 1..7 : ProtoPrecOfSys(k, p) = "none"} =
+        (CASE k = "date" -> 4..7 [] k = "dt" -> {4, 5} [] k = "time" -> 1..5)
+LawElementValue ==     \* the value an element converts to is a System value whose canonical literal denotes it, and it matches the element
+  cs.kind = "proto-precision" /\ cs.sub = "from" =>
+    LET v == SysOfEl(cs.el)
+        q == ParseTemporalLit(cs.canon)
+    IN q.ok /\ q.v = v /\ (cs.el.us % 1000 = 0 => ElMatches(cs.el, v))
+       /\ (ProtoPrecOfSys(v.t, v.p) = (IF cs.el.prec = "MICROSECOND" THEN "MILLISECOND" ELSE cs.el.prec))
+LawProtoToExpr ==      \* every expression of the "to" direction has a value of the announced kind
+  cs.kind = "proto-precision" /\ cs.sub = "to" =>
+    LET p == ValueOfExpr(cs.expr)
+    IN p.ok /\ p.v.t = (CASE cs.ek = "Date" -> "date" [] cs.ek = "DateTime" -> "dt" [] cs.ek = "Time" -> "time"
+                           [] cs.ek = "Decimal" -> "d" [] cs.ek = "Integer" -> "i" [] cs.ek = "Quantity" -> "q")
+(* ---- FHIR texts: the specification's parser inverts its renderer ---- *)
+LawFhirText ==
+  cs.kind = "fhir-helpers" /\ cs.sub = "fmt" =>
+    \A zulu \in BOOLEAN :
+      LET r == ParseFhir(cs.el.ek, ElText(cs.el, zulu))
+      IN r.ok /\ SameAsEl(r, cs.el) /\ PrecOfParsed(r) = cs.el.prec
+LawFhirParseTexts ==
+  cs.kind = "fhir-helpers" /\ cs.sub = "parse" => ParseFhir(cs.ek, cs.text).ok
+(* ---- narrowing table ---- *)
+LawNarrowTable ==
+  \A T \in IntTypes :
+    /\ HiOf(T) = SMake(FALSE, NSub(NPow2(IF SignedType(T) THEN BitsOf(T) - 1 ELSE BitsOf(T)), <<1>>))
+    /\ LoOf(T) = (IF SignedType(T) THEN SMake(TRUE, NPow2(BitsOf(T) - 1)) ELSE SMake(FALSE, <<>>))
+    /\ Representable(HiOf(T), T) /\ Representable(LoOf(T), T)
+    /\ ~Representable(SAdd(HiOf(T), SFromInt(1)), T) /\ ~Representable(SSub(LoOf(T), SFromInt(1)), T)
+LawNarrowSmall ==      \* the native-integer form of the table agrees with the BigNum form
+  cs.kind = "narrow" /\ cs.sub = "range" =>
+    \A x \in {cs.lo, cs.hi, (cs.lo + cs.hi) \div 2, -129, -128, 127, 128, 255, 256} :
+      RepresentableSmall(x, cs.to) = Representable(SFromInt(x), cs.to)
+LawNarrowDomain ==     \* every generated value is a value of the source type
+  cs.kind = "narrow" =>
+    IF cs.sub = "range" THEN cs.lo <= cs.hi /\ RepresentableSmall(cs.lo, BaseOf(cs.from)) /\ RepresentableSmall(cs.hi, BaseOf(cs.from))
+    ELSE Representable(cs.v, BaseOf(cs.from))
+
+(* the two laws about fixed tables do not depend on the case: checked once *)
+ASSUME LawPrecisionBijective
+ASSUME LawNarrowTable
+
+Laws == /\ LawElementValue /\ LawProtoToExpr /\ LawFhirText /\ LawFhirParseTexts
+        /\ LawNarrowSmall /\ LawNarrowDomain
+        /\ LawDecodeEncode /\ LawOrdinaryIntact /\ LawEncodeOfDecode /\ LawTokenCount
         /\ LawNumberCanon /\ LawDecimalExact
         /\ LawTemporalCanon /\ LawTemporalDesc /\ LawInvalidRejected
 =============================================================================
